@@ -21,6 +21,40 @@ def main():
     sd = os.path.join(ROOT, "seeded", name)
     meta = json.load(open(os.path.join(sd, "meta.json")))
     props = sys.argv[2:] or list(meta.get("checks", {}).keys()) or [meta["property"]]
+    scratch = os.environ.get("SEED_SCRATCH") == "1" and os.path.realpath(ROOT) != "/verif"
+    if scratch:
+        # snapshot mode (vp run): /repo is left alone; the patch goes into the scratch worktree $SEED_WT and this
+        # copy of /verif is pointed at it
+        wt = os.environ["SEED_WT"]
+        manifest = os.path.join(ROOT, "harness", "Cargo.toml")
+        orig = open(manifest).read()
+        sh("git checkout -- .", cwd=wt)
+        rc, out = sh(f"git apply {os.path.join(sd, 'patch.diff')}", cwd=wt)
+        assert rc == 0, out
+        results = dict(meta.get("checks", {}))
+        try:
+            open(manifest, "w").write(orig.replace('path = "/repo"', f'path = "{wt}"'))
+            for p in props:
+                e = dict(os.environ); e["BP7_REPO"] = wt
+                pr = subprocess.run(f"./check {p} --tier quick", cwd=ROOT, shell=True, stdout=subprocess.PIPE, stderr=subprocess.STDOUT, env=e, timeout=3600)
+                rc, out = pr.returncode, pr.stdout.decode("utf-8", "replace")
+                line = [l for l in out.splitlines() if l.startswith("VIOLATION") or l.startswith("OK ")]
+                results[p] = {"rc": rc, "line": line[-1] if line else out[-200:]}
+                if rc == 1:
+                    m = re.search(r"replay=(\S+)", out)
+                    if m and os.path.exists(m.group(1)):
+                        rp = json.load(open(m.group(1)))
+                        results[p]["replay_kind"] = rp.get("kind")
+                        results[p]["replay_ops"] = [o[:200] for o in rp.get("ops", [])[:2]]
+                        results[p]["oracle"] = rp.get("oracle", [])[:1]
+                print(name, p, results[p]["rc"], results[p].get("replay_kind"), (results[p].get("oracle") or [results[p]["line"]])[0][:160])
+        finally:
+            open(manifest, "w").write(orig)
+            sh("git checkout -- .", cwd=wt)
+        meta["checks"] = results
+        meta["detected_by"] = [p for p, r in results.items() if r["rc"] == 1]
+        json.dump(meta, open(os.path.join(sd, "meta.json"), "w"), indent=1)
+        return
     st = subprocess.run("git -C /repo status --short", shell=True, capture_output=True, text=True).stdout
     assert st.strip() == "", "repo not clean: " + st
     ev, bak = os.path.join(ROOT, "evidence"), os.path.join(ROOT, ".build", "evidence.keep")
